@@ -79,11 +79,12 @@ def gen_plan(seed, index, tier):
     ypred = [round(((i * 0.61803398875 + 0.137 * rng.random()) % 1.0), 6) if varying else 0.5 for i in range(n)]
     form = rng.choice(["callable", "dict1", "dict"])
     if form == "callable":
-        metrics = [rng.choice(["mean", "mean", "count", "const"])]
+        metrics = [rng.choice(["mean", "mean", "count", "const", "npos"])]
     elif form == "dict1":
-        metrics = [rng.choice(["mean", "count", "const"])]
+        metrics = [rng.choice(["mean", "count", "const", "npos"])]
     else:
-        metrics = rng.sample(["mean", "count", "const"], rng.randint(2, 3))
+        # (an all-integer frame - count and npos only - keeps an integer dtype in every resample)
+        metrics = rng.sample(["mean", "count", "const", "npos"], rng.randint(2, 3)) if rng.random() < 0.8 else ["count", "npos"]
     wide = rng.random() < 0.4
     if wide:
         qs = [rng.choice([0.025, 0.05]), rng.choice([0.95, 0.975])]
@@ -115,6 +116,10 @@ def gen_plan(seed, index, tier):
         "rare": rare,
         # per-sample parameter (the row id again) handed to the metrics: must be resampled with its row
         "row_tag": rng.random() < 0.3,
+        # history on the caller's side: after construction the caller recycles its containers in place, and reads
+        # the accessors in a planned order (some twice) - the second construction is read plainly
+        "scribble": rng.random() < 0.3,
+        "read_order": (rng.sample(range(8), 8) + [rng.randrange(8) for _ in range(3)]) if rng.random() < 0.4 else None,
     }
     if collide:
         plan["rs"], plan["n_boot"] = collide
@@ -130,7 +135,7 @@ def _features(plan, lo, hi, prefix):
     if plan["container"] == "df":
         return pd.DataFrame({nm: c for nm, c in zip(names, cols)})
     if plan["container"] == "dict":
-        return {nm: c for nm, c in zip(names, cols)}
+        return {nm: list(c) for nm, c in zip(names, cols)}
     arr = np.array([[str(v) for v in c] for c in cols], dtype=object).T
     return arr if len(cols) > 1 else np.array([str(v) for v in cols[0]], dtype=object)
 
@@ -145,13 +150,42 @@ def construct(plan, ctx, rs=None):
         tag = {"row_tag": list(range(plan["n"]))}
         sample_params = tag if plan["form"] == "callable" else {name: dict(tag) for name in spies}
     ctx.spy_log = []
-    ok, mf, site = ctx.call(MetricFrame, metrics=metrics, y_true=list(range(plan["n"])), y_pred=plan["ypred"],
+    handed = {"y_true": list(range(plan["n"])), "y_pred": list(plan["ypred"]), "q": list(plan["quantiles"]),
+              "sf": _features(plan, 0, plan["nsf"], "sf"), "cf": _features(plan, plan["nsf"], plan["nsf"] + plan["ncf"], "cf"),
+              "sample_params": sample_params}
+    ctx.scratch["handed"] = handed  # the caller's own containers (see scribble())
+    ok, mf, site = ctx.call(MetricFrame, metrics=metrics, y_true=handed["y_true"], y_pred=handed["y_pred"],
                             sample_params=sample_params,
-                            sensitive_features=_features(plan, 0, plan["nsf"], "sf"),
-                            control_features=_features(plan, plan["nsf"], plan["nsf"] + plan["ncf"], "cf"),
-                            n_boot=plan["n_boot"], ci_quantiles=list(plan["quantiles"]),
+                            sensitive_features=handed["sf"], control_features=handed["cf"],
+                            n_boot=plan["n_boot"], ci_quantiles=handed["q"],
                             random_state=plan["rs"] if rs is None else rs)
     return ok, mf, site, list(ctx.spy_log)
+
+
+def scribble(ctx):
+    """The caller recycles, in place, every container it handed to the constructor (the quantile list is cleared
+    and refilled with other quantiles in descending order, labels / predictions / per-sample parameters are
+    reversed, feature columns overwritten).  The intervals describe the construction: they must not move."""
+    h = ctx.scratch["handed"]
+    q = h["q"]
+    q[:] = sorted({0.9, 0.6, 0.3} | set(q), reverse=True)
+    h["y_true"].reverse()
+    h["y_pred"].reverse()
+    sp = h["sample_params"]
+    if sp:
+        lists = {id(v["row_tag"]): v["row_tag"] for v in ([sp] if "row_tag" in sp else list(sp.values()))}
+        for lst in lists.values():
+            lst.reverse()
+    for f in (h["sf"], h["cf"]):
+        if isinstance(f, pd.DataFrame):
+            for c in f.columns:
+                f[c] = list(f[c])[::-1]
+        elif isinstance(f, dict):
+            for c in f.values():
+                c.reverse()
+        elif isinstance(f, np.ndarray):
+            f[...] = f[::-1].copy()
+    ctx.fault("caller_recycles_its_containers")
 
 
 ACCESSORS = [
@@ -166,13 +200,20 @@ ACCESSORS = [
 ]
 
 
-def collect(ctx, mf):
+def collect(ctx, mf, order=None):
     out = {}
-    for name, point, ci in ACCESSORS:
+    acc = ACCESSORS if not order else [ACCESSORS[i % len(ACCESSORS)] for i in order]
+    for name, point, ci in acc:
         ok, pv, site = ctx.call(point, mf)
         ok2, cv, site2 = ctx.call(ci, mf)
+        if name in out:
+            # an accessor asked again (a history of reads on one frame) must repeat its answer
+            a, b = _canon_results({name: out[name]}), _canon_results({name: (ok, pv, ok2, cv, site2)})
+            if a != b:
+                ctx.fail("C18.ci_unstable", f"{name}_ci answered differently when it was read again on the same MetricFrame")
+            continue
         out[name] = (ok, pv, ok2, cv, site2)
-    return out
+    return {name: out[name] for name, _p, _c in ACCESSORS if name in out}
 
 
 def _is_scalar(x):
@@ -200,7 +241,9 @@ def execute(plan, ctx):
         ctx.fail("C18.construct_raised", f"MetricFrame raised {type(mf).__name__}: {mf} at {site}",
                  {"exc": type(mf).__name__, "site": site})
         return
-    res1 = collect(ctx, mf)
+    if plan.get("scribble"):
+        scribble(ctx)
+    res1 = collect(ctx, mf, plan.get("read_order"))
     # ---- ambient perturbation + an unrelated construction in between ----------------
     ctx.fault("ambient_rng")
     if plan["ambient"][0] == "reseed":
@@ -340,19 +383,27 @@ def execute(plan, ctx):
     # ---- 6. quantile bracket against the spy-computed per-resample values -----------------------
     _bracket_checks(ctx, plan, res1, resamples)
     # ---- 7. wide pair ------------------------------------------------------------------------------
-    if "mean" in plan["metrics"] and no_cf and plan["varying"] and n >= 8 and 8 <= B <= 20 and okc and isinstance(cv, list) \
-            and len(cv) == len(qs):
+    # (for 8 <= B <= 20, q_lo <= 0.05 and q_hi >= 0.95 the interpolated quantiles lie in the first and the last gap
+    #  of the sorted resample values, so for values that are not all equal the pair has positive width and encloses
+    #  their mean; this holds for every metric, integer-valued ones included)
+    for mk in ("mean", "npos"):
+        if not (mk in plan["metrics"] and no_cf and plan["varying"] and n >= 8 and 8 <= B <= 20 and okc
+                and isinstance(cv, list) and len(cv) == len(qs)):
+            continue
         lo_i = [i for i, q in enumerate(qs) if q <= 0.05]
         hi_i = [i for i, q in enumerate(qs) if q >= 0.95]
         if lo_i and hi_i:
-            c_lo, c_hi = _cell(cv[lo_i[0]], plan, "m_mean"), _cell(cv[hi_i[0]], plan, "m_mean")
-            v = [blk["overall"][()]["m_mean"] for blk in resamples if () in blk["overall"]]
-            if c_lo is not None and c_hi is not None and len(v) == B:
+            c_lo, c_hi = _cell(cv[lo_i[0]], plan, "m_" + mk), _cell(cv[hi_i[0]], plan, "m_" + mk)
+            v = [blk["overall"][()]["m_" + mk] for blk in resamples if () in blk["overall"]]
+            if c_lo is not None and c_hi is not None and len(v) == B and max(v) > min(v):
                 ctx.probe("wide_pair_checked")
+                if mk == "npos":
+                    ctx.probe("wide_pair_checked_integer_metric")
                 if not c_lo < c_hi:
-                    ctx.fail("C18.wide_pair_width", f"wide quantile pair has no positive width: [{c_lo}, {c_hi}]")
+                    ctx.fail("C18.wide_pair_width", f"wide quantile pair of {mk} has no positive width: [{c_lo}, {c_hi}] "
+                             f"although the resampled values differ ({sorted(v)[:3]}..{sorted(v)[-2:]})")
                 elif not (c_lo - 1e-12 <= float(np.mean(v)) <= c_hi + 1e-12):
-                    ctx.fail("C18.wide_pair_mean", f"resampling mean {np.mean(v)} is outside [{c_lo}, {c_hi}]")
+                    ctx.fail("C18.wide_pair_mean", f"resampling mean {np.mean(v)} of {mk} is outside [{c_lo}, {c_hi}]")
     if plan.get("collide"):
         ctx.probe("colliding_resample_seeds")
     gsets = [frozenset(blk["groups"]) for blk in resamples]
@@ -603,6 +654,10 @@ def _bracket_checks(ctx, plan, res, resamples):
 
 
 def shrink_candidates(plan):
+    if plan.get("scribble"):
+        yield dict(copy.deepcopy(plan), scribble=False)
+    if plan.get("read_order"):
+        yield dict(copy.deepcopy(plan), read_order=None)
     p = plan
 
     def mod(**kw):
